@@ -42,6 +42,8 @@ Value& TABExpression::value(Context & ctx) const
 
   Collection * tab = nullptr;
   Type item_type;
+  try
+  {
   do
   {
     Value& a1 = _args[1]->value(ctx); /* execute expression */
@@ -72,10 +74,7 @@ Value& TABExpression::value(Context & ctx) const
     }
     /* all items must be uniform */
     else if (a1.type() != item_type)
-    {
-      delete tab;
       throw RuntimeError(EXC_RT_VARYING_COLLECTION);
-    }
     /* break now for an empty collection */
     if (n == 0)
       break;
@@ -84,6 +83,13 @@ Value& TABExpression::value(Context & ctx) const
     else
       tab->push_back(std::move(a1));
   } while (--n > 0);
+  }
+  catch (...)
+  {
+    /* the element expression failed on a later evaluation, or gave another type: release what was built so far */
+    delete tab;
+    throw;
+  }
   return ctx.allocate(Value(tab));
 }
 
